@@ -19,7 +19,7 @@ RULE = ("(sim) Hypothesis generates session lists (both flags, maxNormalOrders 0
         "groups complete otherwise; rate 0 => none, rate 1 => one group per batch; execution session without halt rule => "
         "the book of the order's market is not executable at the next observation point after every acceptance; consultation "
         "order not constant over >=30 full steps. Non-trivial = run whose sessions cover >=2 flag combinations, or with "
-        "high-frequency groups and a binding cap. (rate) long single-session runs at rate r in {0.2,0.5,0.8}: group "
+        "high-frequency groups and a binding cap. (order) 40-60 step runs with 3-5 never-capped normal agents: the consultation order must vary and every agent must come first at least once. (rate) long single-session runs at rate r in {0.2,0.5,0.8}: group "
         "frequency within 6 binomial sigma of r.")
 ASSUMPTIONS = ["a consultation of a high-frequency agent is observable only when the cap is > 0 (otherwise the loop never asks)",
                "the round-follows-acceptance predicate is not applied to runs that configure a TradingHaltRule (C16 models those)"]
@@ -96,7 +96,48 @@ def rate_check(case):
     return CaseInfo(nontrivial=True, classes=[f"rate_{r}"], steps=n, sample={"rate": r, "batches": n, "groups": k, "seed": case["seed"]})
 
 
+@st.composite
+def order_cases(draw, tier):
+    n = draw(st.integers(3, 5))
+    steps = draw(st.integers(40, 60))
+    spec = spec_strategy(offs=[-2, -1, 1, 2], market_orders=False, cancels=False, own_cancel=False, ttls=(1, 2))
+    cfg = {
+        "simulation": {"markets": ["M0"], "agents": ["A0"],
+                       "sessions": [{"sessionName": 0, "iterationSteps": steps, "withOrderPlacement": True, "withOrderExecution": draw(st.booleans()),
+                                     "withPrint": False, "maxNormalOrders": n + draw(st.integers(0, 2))}]},
+        "M0": {"class": "Market", "tickSize": 1.0, "marketPrice": 300.0},
+        "A0": {"class": "VScriptedAgent", "numAgents": n, "markets": ["M0"], "assetVolume": 10, "cashAmount": 1000,
+               "scripts": [draw(program_strategy(spec, max_actions=3, decline_weight=1))]},
+    }
+    return {"config": cfg, "seed": draw(st.integers(0, 2**31 - 1))}
+
+
+def order_check(case):
+    res = run_case(case)
+    A = Analysis(case, res)
+    check_c09(A, False)
+    firsts = {}
+    orders = set()
+    n_full = 0
+    for s in A.steps:
+        nc = [kw["agent"] for i, k, kw in s["items"] if k == "consult" and not kw["hft"]]
+        if len(nc) == len(A.normal):
+            n_full += 1
+            orders.add(tuple(nc))
+            firsts[nc[0]] = firsts.get(nc[0], 0) + 1
+    if n_full < 40:
+        raise Violation("C09.normal_all_consulted", f"only {n_full} of {len(A.steps)} steps consulted every normal agent although the cap exceeds their number")
+    if len(orders) == 1:
+        raise Violation("C09.random_order", f"{n_full} steps consulted the {len(A.normal)} normal agents in the identical order {next(iter(orders))}")
+    if len(firsts) != len(A.normal):
+        raise Violation("C09.random_order", f"over {n_full} steps only agents {sorted(firsts)} were ever consulted first (of {len(A.normal)}); "
+                                            f"chance under a uniform shuffle < 1e-6")
+    return CaseInfo(nontrivial=True, classes=["order"], steps=n_full, sample={"n_agents": len(A.normal), "steps": n_full, "distinct_orders": len(orders),
+                                                                             "first_counts": firsts, "seed": case["seed"]})
+
+
 PARTS = {
+    "order": {"check": order_check, "strategy": order_cases, "budget": {"quick": 64, "thorough": 640}},
     "sim": {"check": check_case, "strategy": cases, "budget": {"quick": 1500, "thorough": 40000}},
     "rate": {"check": rate_check, "strategy": rate_cases, "budget": {"quick": 96, "thorough": 640}},
 }
